@@ -551,11 +551,11 @@ pub fn recursion_family(run: &mut Run) {
                 let int = |i: i64| Expr::Int(num_bigint::BigInt::from(i));
                 if h.name.starts_with("rec") {
                     for depth in [0i64, 1, 2, 3] {
-                        let st = Stratum { name: "recursion-shapes", params: vec![("a".into(), Ty::Int), ("b".into(), Ty::Int)], ret: Ty::Int, prods: Default::default(), max_size: 0 };
+                        let st = Stratum { name: "recursion-shapes", params: vec![("a".into(), Ty::Int), ("b".into(), Ty::Int)], ret: Ty::Int, prods: Default::default(), max_size: 0, custom: None };
                         wrappers.push((st, Expr::Call(Rc::new(v(&h.name)), vec![v("a"), v("b"), int(depth)])));
                     }
                 } else {
-                    let st = Stratum { name: "recursion-shapes", params: vec![("xs".into(), Ty::List(Rc::new(Ty::Int))), ("a".into(), Ty::Int)], ret: Ty::Int, prods: Default::default(), max_size: 0 };
+                    let st = Stratum { name: "recursion-shapes", params: vec![("xs".into(), Ty::List(Rc::new(Ty::Int))), ("a".into(), Ty::Int)], ret: Ty::Int, prods: Default::default(), max_size: 0, custom: None };
                     wrappers.push((st, Expr::Call(Rc::new(v(&h.name)), vec![v("xs"), v("a"), Expr::Bin(Op::Sub, Rc::new(int(1)), Rc::new(v("a")))])));
                 }
             }
